@@ -46,6 +46,24 @@
 (*                   address space, zero-value constructors                *)
 (*     SelfReference cyclic struct / alias / const / override / function / *)
 (*                   initialiser declarations                              *)
+(*     HostileConstExpr  a constant expression with HOSTILE OPERAND VALUES *)
+(*                   for the partial operators: a OP b for OP in / % << >> *)
+(*                   + - * & | ^ comparisons, unary - ~ !, casts, builtins *)
+(*                   (pow ldexp extractBits insertBits clamp ...), constant *)
+(*                   array / vector indexing, with operands from the grid  *)
+(*                   {0 -1 1 -2 31 32 33 63 64 INT_MAX INT_MIN 2^31 2^32   *)
+(*                   2^63-1 huge floats 0.0 -0.0 ...} written directly,    *)
+(*                   through named constants or as computed                *)
+(*                   sub-expressions, placed at every constant-expression  *)
+(*                   site: module const, function-scope const / let, array *)
+(*                   size (global, struct member), case selector,          *)
+(*                   const_assert, @workgroup_size @location @binding      *)
+(*                   @group @align @size @id arguments, override and       *)
+(*                   global initialisers, shift amounts, constant indices; *)
+(*                   as a built group (like the others) or SUBSTITUTED for *)
+(*                   a numeric literal token of the seed program itself    *)
+(*                   (SeedLits[s] lists those positions; first action of a *)
+(*                   script only, while positions still are the seed's).   *)
 (* k is clamped so that the construct alone fits into MaxBytes.            *)
 (*                                                                         *)
 (* Mode "exhaustive": every position and every pool token is enumerated    *)
@@ -67,6 +85,10 @@ CONSTANTS SeedLen,    \* sequence of element counts, one per seed document
           Depths,     \* nesting depths offered to Nest
           Lengths,    \* repetition counts offered to LongChain
           MaxOff,     \* TruncateIn offsets 1 .. MaxOff
+          SeedLits,   \* sequence: SeedLits[s] = positions of the numeric literal elements of seed s
+          CECtxSel,   \* HostileConstExpr: contexts offered ({} = all)
+          CEForms,    \* HostileConstExpr: operand forms offered, subset of {"direct", "named", "computed"}
+          CEShapes,   \* HostileConstExpr: expression shapes offered ({} = all)
           Faults
 
 VARIABLES seed, len, script, left, est
@@ -485,6 +507,70 @@ HugeLiteral ==
     LET w == IF ctx \in IntCtxs THEN IntWrap(ctx) ELSE ExprWrap(ctx)
     IN Build("HugeLiteral", LitCon(t), ctx, w.pre, w.post, 0, 1, at)
 
+
+\* ---------------------------------------------------------------- hostile constant expressions
+\* operand grid: boundary values of the partial operators (shift counts, divisors, conversions, indices, bit ranges)
+Grid == {"0", "-1", "1", "-2", "2", "31", "32", "33", "63", "64", "-32", "2147483647", "-2147483648", "(-2147483647 - 1)",
+         "2147483648", "4294967295", "4294967296", "9223372036854775807", "-9223372036854775807", "0u", "1u", "31u", "32u",
+         "4294967295u", "1i", "-1i", "2147483647i", "3.4028234e38", "-3.4028234e38", "1e38", "1e-45", "0.0", "-0.0", "1.5", "-1.5",
+         "0x7fffffff", "0x80000000", "0xffffffffu", "true"}
+SmallGrid == {"0", "-1", "32", "33u"}
+BinOps == {"/", "%", "<<", ">>", "+", "-", "*", "&", "|", "^", "==", "<", ">=", "&&", "||"}
+UnOps  == {"-", "~", "!"}
+Casts  == {"i32", "u32", "f32", "f16", "bool", "vec2<u32>"}
+Calls2 == {"pow", "ldexp", "min", "max", "atan2", "step", "dot4I8Packed"}
+Calls3 == {"clamp", "extractBits", "select", "mix", "smoothstep", "fma"}
+AllShapes == {"bin", "un", "cast", "call2", "call3", "call4", "aindex", "vindex"}
+Shapes == IF CEShapes = {} THEN AllShapes ELSE CEShapes
+OpsOf(sh) == CASE sh = "bin" -> BinOps [] sh = "un" -> UnOps [] sh = "cast" -> Casts [] sh = "call2" -> Calls2
+               [] sh = "call3" -> Calls3 [] sh = "call4" -> {"insertBits"} [] OTHER -> {"[]"}
+\* an operand: written directly, through a named module constant, or computed
+Opd(form, x, name) == CASE form = "named" -> <<name>>
+                        [] form = "computed" -> <<"(", x, "+", "1", "-", "1", ")">>
+                        [] OTHER -> <<x>>
+CEDecls(form, a, b) == IF form = "named" THEN <<"const", "hx#N_a", "=", a, ";", "const", "hx#N_b", "=", b, ";">> ELSE <<>>
+CExpr(sh, op, A, B, c, d) ==
+  CASE sh = "bin"    -> <<"(">> \o A \o <<op>> \o B \o <<")">>
+    [] sh = "un"     -> <<"(", op>> \o A \o <<")">>
+    [] sh = "cast"   -> <<op, "(">> \o A \o <<")">>
+    [] sh = "call2"  -> <<op, "(">> \o A \o <<",">> \o B \o <<")">>
+    [] sh = "call3"  -> <<op, "(">> \o A \o <<",">> \o B \o <<",", c, ")">>
+    [] sh = "call4"  -> <<op, "(">> \o A \o <<",">> \o B \o <<",", c, ",", d, ")">>
+    [] sh = "aindex" -> <<"array", "(">> \o A \o <<",", c, ")", "[">> \o B \o <<"]">>
+    [] OTHER         -> <<"vec4", "(">> \o A \o <<")", "[">> \o B \o <<"]">>
+\* the sites: every expression / integer context of the other builders plus the function-scope and assertion sites
+CEExtra == {"fnconst", "let", "assert", "memberarray", "localarray"}
+CEWrapX(ctx) ==
+  CASE ctx = "fnconst"     -> [pre |-> EPo \o <<"const", "c", "=">>, post |-> <<";", "var", "v", "=", "c", ";", "}">>]
+    [] ctx = "let"         -> [pre |-> EPo \o <<"let", "c", "=">>, post |-> <<";", "var", "v", "=", "c", ";", "}">>]
+    [] ctx = "assert"      -> [pre |-> <<"const_assert">>, post |-> <<"!=", "12345", ";">> \o EP(<<>>)]
+    [] ctx = "memberarray" -> [pre |-> <<"struct", "hx#N_s", "{", "m", ":", "array", "<", "i32", ",">>,
+                               post |-> <<">", "}">> \o EP(<<"var", "v", ":", "hx#N_s", ";">>)]
+    [] ctx = "localarray"  -> [pre |-> EPo \o <<"var", "v", ":", "array", "<", "i32", ",">>, post |-> <<">", ";", "}">>]
+CECtxs == IF CECtxSel = {} THEN ExprCtxs \cup IntCtxs \cup CEExtra ELSE CECtxSel
+CEWrap(ctx) == IF ctx \in CEExtra THEN CEWrapX(ctx) ELSE IF ctx \in IntCtxs THEN IntWrap(ctx) ELSE ExprWrap(ctx)
+
+HostileConstExpr ==
+  On("HostileConstExpr") /\
+  \E sh \in Pick(Shapes) : \E form \in Pick(CEForms) : \E a \in Pick(Grid) : \E b \in Pick(Grid) :
+  \E c \in Pick(IF sh \in {"call3", "call4", "aindex"} THEN SmallGrid ELSE {"0"}) :
+  \E d \in Pick(IF sh = "call4" THEN SmallGrid ELSE {"0"}) :
+  \E op \in Pick(OpsOf(sh)) :
+    LET e == CExpr(sh, op, Opd(form, a, "hx#N_a"), Opd(form, b, "hx#N_b"), c, d)
+        con == C(sh \o ":" \o op \o ":" \o form, "expr", <<>>, e, <<>>, 0)
+    IN \/ \* a built group at one of the constant-expression sites
+          \E ctx \in Pick(CECtxs) : \E at \in Pick(IF len = 0 THEN {"end"} ELSE {"end", "start"}) :
+            LET w == CEWrap(ctx) IN Build("HostileConstExpr", con, ctx, CEDecls(form, a, b) \o w.pre, w.post, 0, 1, at)
+       \/ \* substituted for a numeric literal of the seed program (positions are the seed's: first action only)
+          /\ script = <<>> /\ SeedLits[seed] # <<>> /\ CECtxSel = {}
+          /\ \E n \in Pick(1 .. Len(SeedLits[seed])) :
+               LET pre == CEDecls(form, a, b) IN
+               /\ script' = Append(script, [a |-> "HostileConstExpr", c |-> con.c, ctx |-> "subst", i |-> SeedLits[seed][n],
+                                            pre |-> pre, core |-> e])
+               /\ len' = len - 1 + Len(e) + Len(pre)
+               /\ left' = left - 1
+               /\ UNCHANGED <<seed, est>>
+
 HugeArray ==
   On("HugeArray") /\
   \E n \in Pick(ArraySizes) : \E e \in Pick(ArrayElems) : \E ctx \in Pick(TypeCtxs) : \E at \in Pick({"end", "start"}) :
@@ -503,7 +589,7 @@ Emit == /\ left = 0
         /\ UNCHANGED <<seed, len, script, est>>
 
 Next == \/ DeleteToken \/ DuplicateToken \/ SwapTokens \/ ReplaceToken \/ InsertToken \/ TruncateTok \/ TruncateIn
-        \/ RawBytes \/ RawFill \/ Nest \/ LongChain \/ HugeLiteral \/ HugeArray \/ SelfReference \/ Emit
+        \/ RawBytes \/ RawFill \/ Nest \/ LongChain \/ HugeLiteral \/ HugeArray \/ SelfReference \/ HostileConstExpr \/ Emit
 
 Spec == Init /\ [][Next]_vars
 
